@@ -440,11 +440,20 @@ pub fn cmd_cases(args: &[String]) -> i32 {
             if i >= cases.len() {
                 break;
             }
+            if crate::ABANDONED.load(Ordering::SeqCst) > crate::MAX_ABANDONED {
+                // too many hung / panicked runs are parked already: do not run the rest
+                let n = cases[i]["steps"].as_array().map(|a| a.len()).unwrap_or(1);
+                results.lock().unwrap()[i] = Some(json!({"id": cases[i]["id"], "skipped": true,
+                    "steps": (0..n).map(|_| json!({"verdict": "skipped", "tree": {}})).collect::<Vec<_>>()}));
+                continue;
+            }
             let dir = root.join(format!("c{i}"));
             let r = run_case(&cases[i], &dir, &cli, &templates);
             let abandoned = r["steps"].as_array().map(|a| a.iter().any(|s| matches!(s["verdict"].as_str(), Some("hang") | Some("panic")))).unwrap_or(false);
             if !abandoned {
                 let _ = std::fs::remove_dir_all(&dir);
+            } else {
+                crate::ABANDONED.fetch_add(1, Ordering::SeqCst);
             }
             results.lock().unwrap()[i] = Some(r);
         }));
